@@ -124,6 +124,7 @@ class MeshSpec:
                                              else ["m"] * self.nd))
         # a mesh that does not arrive where it should is C12's / C13's subject, not the
         # caller's: fall back to plain construction
+        _hist_event("history.mesh.inplace_quarter_turn" if ok else "history.mesh.not_arrived")
         return pre if ok else None
 
     def centre(self, idx):
@@ -354,6 +355,11 @@ def warm(obj):
 
 
 _HIST_RNG = None
+HIST_EVENTS = {}  # what the history helpers actually did (copied into the evidence)
+
+
+def _hist_event(name):
+    HIST_EVENTS[name] = HIST_EVENTS.get(name, 0) + 1
 
 
 def set_history_rng(rng):
@@ -392,6 +398,7 @@ def via_history(rng, f, p=0.35):
         return f
     warm(g)
     mode = pick(rng, ["inplace", "inplace", "setter", "update"])
+    _hist_event("history.field." + mode)
     if mode == "inplace":
         g.array[...] = f.array
         g.valid[...] = f.valid
